@@ -14,11 +14,11 @@ VARIABLE i
 TValueBound == 4          \* |entry| of every input array (Pythagorean columns go up to 4)
 
 CfgFields == {"op", "kind", "shape", "rank", "family", "how", "mode", "operand", "odim", "keep", "copy", "npad", "padb",
-              "lens", "maxrank", "thr", "listin", "fshapes", "coreshape", "pshapes"}
+              "lens", "maxrank", "thr", "listin", "fshapes", "coreshape", "pshapes", "rshapes"}
 OutFields == {"raised", "malformed", "exact", "dense", "cn", "cnfin", "wmin", "summ", "sfin", "parts", "perm",
               "orth", "orthfin", "nproj", "recon", "slices"}
 Ops == {"normalize", "cp_flip_sign", "cp_permute_factors", "pad_tt_rank", "cp_mode_dot", "tucker_mode_dot",
-        "cp_to_parafac2", "svd_roundtrip"}
+        "cp_to_parafac2", "svd_roundtrip", "svd_compress"}
 
 IsLogT(T)  == {"shape", "data"} \subseteq DOMAIN T /\ IsTAny(T)
 IsLogQ(T)  == {"shape", "q", "fin"} \subseteq DOMAIN T /\ T.fin \in BOOLEAN
@@ -28,10 +28,12 @@ WOK(x) == {"hasw", "w"} \subseteq DOMAIN x /\ x.hasw \in BOOLEAN /\ \A r \in 1..
 
 WellFormed(e) ==
     /\ {"id", "cfg", "in", "out"} \subseteq DOMAIN e
-    /\ CfgFields \subseteq DOMAIN e.cfg /\ e.cfg.op \in Ops /\ e.cfg.kind \in Kinds
+    /\ CfgFields \subseteq DOMAIN e.cfg /\ e.cfg.op \in Ops /\ e.cfg.kind \in Kinds \cup {"slices"} /\ (e.cfg.kind = "slices" <=> e.cfg.op = "svd_compress")
     /\ e.cfg.mode \in Nat /\ e.cfg.keep \in BOOLEAN /\ e.cfg.padb \in BOOLEAN /\ e.cfg.npad \in Nat
     /\ "fs" \in DOMAIN e.in /\ TensAll(e.in.fs)
     /\ (e.cfg.kind \in {"cp", "p2"} => WOK(e.in))
+    /\ (e.cfg.kind = "slices" => "rs" \in DOMAIN e.in /\ TensAll(e.in.rs) /\ Len(e.in.rs) = Len(e.in.fs)
+                                 /\ \A k \in 1..Len(e.in.fs) : Len(e.in.fs[k].shape) = 2 /\ Len(e.in.rs[k].shape) = 2)
     /\ (e.cfg.kind = "tucker" => "core" \in DOMAIN e.in /\ IsLogT(e.in.core) /\ TBounded(e.in.core))
     /\ (e.cfg.kind = "p2" => "ps" \in DOMAIN e.in /\ TensAll(e.in.ps) /\ "pden" \in DOMAIN e.in /\ e.in.pden \in {1, 2})
     /\ (e.cfg.op \in {"cp_mode_dot", "tucker_mode_dot"} =>
@@ -55,8 +57,14 @@ InDomain(e) ==
     /\ [k \in 1..Len(in.fs) |-> in.fs[k].shape] = c.fshapes
     /\ (kd = "tucker" => in.core.shape = c.coreshape)
     /\ (kd = "p2" => [k \in 1..Len(in.ps) |-> in.ps[k].shape] = c.pshapes)
-    /\ Valid(kd, in)
+    /\ (kd = "slices" \/ Valid(kd, in))
     /\ FamilyOK(c, in)
+    /\ (c.op = "svd_compress" =>
+            /\ [k \in 1..Len(in.rs) |-> in.rs[k].shape] = c.rshapes /\ Len(c.shape) = 2 /\ Len(c.rank) = 1
+            /\ Len(c.lens) = Len(in.fs) /\ KeepsAll(c)           \* every non-zero singular value fits under the limit
+            /\ Len(e.out.slices) = Len(in.fs)
+            /\ \A s \in 1..Len(in.fs) : LET X == MatMul(in.fs[s], in.rs[s]) IN
+                                          e.out.slices[s].shape = X.shape /\ e.out.slices[s].data = X.data)
     /\ c.mode < Len(c.shape) \/ c.op \notin {"cp_flip_sign", "cp_mode_dot", "tucker_mode_dot"}
     /\ (c.op \in {"cp_mode_dot", "tucker_mode_dot"} =>
             IF c.operand = "matrix" THEN in.m.shape = <<c.odim, c.shape[c.mode + 1]>> ELSE Len(in.v) = c.shape[c.mode + 1])
@@ -70,6 +78,7 @@ SameCP(P, Q) == /\ P.w = Q.w /\ Len(P.fs) = Len(Q.fs)
                 /\ \A k \in 1..Len(Q.fs) : P.fs[k].shape = Q.fs[k].shape /\ P.fs[k].data = Q.fs[k].data
 
 Expected(c, in) ==
+    IF c.op = "svd_compress" THEN MatMul(in.fs[1], in.rs[1]) ELSE
     LET D == Dense(c.kind, in) IN
     IF c.op \in {"cp_mode_dot", "tucker_mode_dot"} THEN ModeDotExpected(D, c, in) ELSE D
 
@@ -110,6 +119,10 @@ Verdict(e) ==
             IF ~CloseQ(out.dense, X) THEN "Dense"
             ELSE IF out.nproj # c.shape[1] THEN "Projections"
             ELSE IF ~out.orthfin \/ out.orth > NormTol THEN "Orthonormal" ELSE "ok"
+      [] c.op = "svd_compress" ->
+            \* loading_i @ score_i (or the untouched slice) gives back every slice: nothing was truncated
+            IF Len(out.recon) # Len(in.fs) \/ \E s \in 1..Len(in.fs) : ~CloseQ(out.recon[s], MatMul(in.fs[s], in.rs[s])) THEN "Recon"
+            ELSE "ok"
       [] c.op = "svd_roundtrip" ->
             IF Len(out.recon) # Len(in.ps) \/ \E s \in 1..Len(in.ps) : ~CloseQ(out.recon[s], P2Slice(in, s)) THEN "Recon"
             ELSE IF ~CloseQ(out.dense, X) THEN "Dense"
